@@ -10,9 +10,9 @@ import HexVerif.Asm.Syntax
   those two annotations.
 
   The symbol table is a `std::map` keyed by (scope, name) where scope is "" for globals and the
-  procedure name for formals and locals; `insert` overwrites (`symbolMap[identifier] = ...`).  The
-  model keeps an association list whose FIRST entry for a key is the live one; xcmp never
-  iterates over the map, so order is unobservable.
+  procedure name for formals and locals; `insert` of a key that is already present raises
+  `RedeclaredSymbolError`.  The model keeps an association list; xcmp never iterates over the
+  map, so order is unobservable.
 -/
 namespace Hex.Xcmp
 open Hex.X (BinOp UnOp)
@@ -23,6 +23,7 @@ abbrev CInt := Word
 /-- Diagnostics by C++ exception class (all derive from `hexutil::Error`). -/
 inductive Diag where
   | unknownSymbol (name : String)           -- UnknownSymbolError
+  | redeclaredSymbol (name : String)        -- RedeclaredSymbolError
   | nonConstArrayLength (name : String)     -- NonConstArrayLengthError
   | nonConstVal (name : String)             -- NonConstValError
   | invalidSyscall (id : Int)               -- InvalidSyscallError
@@ -34,6 +35,7 @@ inductive Diag where
 /-- Exception class name, as the harness prints it. -/
 def Diag.className : Diag → String
   | .unknownSymbol _ => "xcmp::UnknownSymbolError"
+  | .redeclaredSymbol _ => "xcmp::RedeclaredSymbolError"
   | .nonConstArrayLength _ => "xcmp::NonConstArrayLengthError"
   | .nonConstVal _ => "xcmp::NonConstValError"
   | .invalidSyscall _ => "xcmp::InvalidSyscallError"
@@ -141,9 +143,6 @@ structure Symbol where
 abbrev SymKey := String × String
 abbrev SymTab := List (SymKey × Symbol)
 
-/-- `SymbolTable::insert`. -/
-def SymTab.insert (t : SymTab) (k : SymKey) (s : Symbol) : SymTab := (k, s) :: t
-
 def SymTab.find? (t : SymTab) (k : SymKey) : Option Symbol :=
   match t with
   | [] => none
@@ -183,36 +182,46 @@ def declIsVal : X.Decl → Bool
 def formalSymType : X.Formal → SymType
   | .val _ => .val | .array _ => .array | .proc _ => .proc | .func _ => .func
 
-def createGlobals : List X.Decl → Nat → SymTab → SymTab
-  | [], _, t => t
-  | d :: ds, i, t =>
-    createGlobals ds (i + 1)
-      (t.insert ("", d.name) { type := declSymType d, node := .gdecl i, isValDecl := declIsVal d, scope := "", name := d.name })
+/-- `SymbolTable::insert` (1753-1761): a second declaration of a (scope, name) is an error. -/
+def SymTab.insert (t : SymTab) (k : SymKey) (s : Symbol) : Except Diag SymTab :=
+  match t.find? k with
+  | some _ => .error (.redeclaredSymbol k.2)
+  | none => .ok ((k, s) :: t)
 
-def createFormals (p : Nat) (scope : String) : List X.Formal → Nat → SymTab → SymTab
-  | [], _, t => t
-  | f :: fs, i, t =>
-    createFormals p scope fs (i + 1)
-      (t.insert (scope, f.name) { type := formalSymType f, node := .formal p i, isValDecl := false, scope := scope, name := f.name })
+def createGlobals : List X.Decl → Nat → SymTab → Except Diag SymTab
+  | [], _, t => .ok t
+  | d :: ds, i, t => do
+    let t' ← t.insert ("", d.name)
+      { type := declSymType d, node := .gdecl i, isValDecl := declIsVal d, scope := "", name := d.name }
+    createGlobals ds (i + 1) t'
 
-def createLocals (p : Nat) (scope : String) : List X.Decl → Nat → SymTab → SymTab
-  | [], _, t => t
-  | d :: ds, i, t =>
-    createLocals p scope ds (i + 1)
-      (t.insert (scope, d.name) { type := declSymType d, node := .ldecl p i, isValDecl := declIsVal d, scope := scope, name := d.name })
+def createFormals (p : Nat) (scope : String) : List X.Formal → Nat → SymTab → Except Diag SymTab
+  | [], _, t => .ok t
+  | f :: fs, i, t => do
+    let t' ← t.insert (scope, f.name)
+      { type := formalSymType f, node := .formal p i, isValDecl := false, scope := scope, name := f.name }
+    createFormals p scope fs (i + 1) t'
 
-def createProcs : List X.Proc → Nat → SymTab → SymTab
-  | [], _, t => t
-  | p :: ps, i, t =>
+def createLocals (p : Nat) (scope : String) : List X.Decl → Nat → SymTab → Except Diag SymTab
+  | [], _, t => .ok t
+  | d :: ds, i, t => do
+    let t' ← t.insert (scope, d.name)
+      { type := declSymType d, node := .ldecl p i, isValDecl := declIsVal d, scope := scope, name := d.name }
+    createLocals p scope ds (i + 1) t'
+
+def createProcs : List X.Proc → Nat → SymTab → Except Diag SymTab
+  | [], _, t => .ok t
+  | p :: ps, i, t => do
     -- visitPre(Proc) runs before enterProc: the procedure's own symbol lives in the global scope
-    let t1 := t.insert ("", p.name)
+    let t1 ← t.insert ("", p.name)
       { type := if p.isFunc then .func else .proc, node := .proc i, isValDecl := false, scope := "", name := p.name }
-    let t2 := createFormals i p.name p.formals 0 t1
-    let t3 := createLocals i p.name p.locals 0 t2
+    let t2 ← createFormals i p.name p.formals 0 t1
+    let t3 ← createLocals i p.name p.locals 0 t2
     createProcs ps (i + 1) t3
 
 /-- `tree->accept(&createSymbols)`. -/
-def createSymbols (P : X.Program) : SymTab :=
-  createProcs P.procs 0 (createGlobals P.globals 0 [])
+def createSymbols (P : X.Program) : Except Diag SymTab := do
+  let t ← createGlobals P.globals 0 []
+  createProcs P.procs 0 t
 
 end Hex.Xcmp
